@@ -1,12 +1,47 @@
 (** C07 - A transport upgrade loses, duplicates and breaks nothing.
-    Statements only; every proof is `exact <lemma>` (or a kernel computation for witnesses). *)
-From SioV Require Import Base.GoSem Base.Conc Eio.Upgrade Eio.UpgradeProofs.
+    Statements only; every proof is `exact <lemma>` (or a kernel computation for witnesses).
+
+    The model is Eio/Upgrade.v: [run sched init] is the state after ANY schedule (list of labels of
+    both parties, the links, the application sends and the faults; a label that is not enabled is
+    skipped).  [quiescentb st] = no internal label is enabled (C07_quiescent_is_terminal).
+    [broke st] is the ghost flag of the finding class: a cut / stall / upgrade time-out that fell
+    inside the commit window (after the client accepted the probe pong, before the server processed
+    UPGRADE), or a timer that closes a transport which has meanwhile become current. *)
+From SioV Require Import Base.GoSem Base.Conc Eio.Upgrade Eio.UpgradeInv Eio.UpgradeProofs.
+
+(** Exactly once, for ALL schedules outside the finding class: whenever the system has come to
+    rest, every message either application sent (before, during, after the upgrade; whatever was
+    queued, in a poll response or in a POST when the transports were swapped) has been delivered to
+    the other application exactly once, nothing else has been delivered, both sockets are open and
+    both sides are on the same transport. *)
+Theorem C07_exactly_once_partial : forall sched,
+  let st := run sched init in
+  broke st = false -> quiescentb st = true ->
+  (forall n, cntN n (c_recv st) = sent_ind n (s_sent st) /\ cntN n (s_recv st) = sent_ind n (c_sent st))
+  /\ c_closed st = false /\ s_closed st = false /\ c_ws st = s_ws st.
+Proof. exact exactly_once_at_quiescence. Qed.
+
+(** A refused / stalled / cut / timed-out attempt (outside the commit window) leaves both sides on
+    long-polling with the socket open, in every state of every schedule; by the theorem above the
+    messages sent later are then delivered exactly once on that transport. *)
+Theorem C07_failed_upgrade_keeps_transport_partial : forall sched,
+  let st := run sched init in
+  broke st = false ->
+  (k_ws st = WRefused \/ k_ws st = WStalled \/ k_ws st = WCut) ->
+  c_ws st = false /\ s_ws st = false /\ c_closed st = false /\ s_closed st = false.
+Proof. exact failed_upgrade_keeps_transport. Qed.
 
 (** A close reported by the superseded (old) transport after the swap changes nothing: the socket
     stays open on the new transport, on both sides, in every state. *)
 Theorem C07_superseded_close_ignored : forall st st',
   (step SOldClose st = Some st' \/ step COldClose st = Some st') -> st' = st.
 Proof. exact superseded_close_ignored. Qed.
+
+(** [quiescentb] really means that neither program nor the fault-free network can move. *)
+Theorem C07_quiescent_is_terminal : forall st,
+  quiescentb st = true ->
+  (forall l, In l internal_fixed -> step l st = None) /\ (forall i, step (PostDeliver i) st = None).
+Proof. exact quiescent_no_internal. Qed.
 
 (** Refuted at full strength: if the websocket is cut after the client accepted the probe pong
     (it has swapped and sent UPGRADE) but before the server processed the UPGRADE packet, the
@@ -25,3 +60,19 @@ Theorem C07_timer_boundary_race_refuted : exists sched,
   let st := drain 8 (run sched init) in
   quiescentb st = true /\ s_ws st = true /\ c_ws st = true /\ s_closed st = true /\ broke st = true.
 Proof. exists sched_timer_race. vm_compute. repeat split. Qed.
+
+(** Non-vacuity of the side condition: an upgrade with traffic queued on both sides at the swap,
+    and a refused attempt followed by traffic, both come to rest with [broke = false]. *)
+Example C07_upgrade_example :
+  let st := run ([SSend; CSend; CPollStart; GetArrive; GetRoute; GetFirst; CDial; SAccept; CDialOk; SRecvWs;
+                  SSend; CSend; CRecvWs; SSend; SSend] ++ concat (repeat internal_core 6)) init in
+  broke st = false /\ quiescentb st = true /\ c_ws st = true /\ s_ws st = true
+  /\ c_recv st = [0; 1; 2; 3]%N /\ s_recv st = [0; 1]%N.
+Proof. vm_compute. repeat split. Qed.
+
+Example C07_refused_example :
+  let st := run ([CPollStart; CDial; Refuse; SSend; CSend] ++ concat (repeat internal_core 6) ++ [SSend]
+                 ++ concat (repeat internal_core 6)) init in
+  broke st = false /\ quiescentb st = true /\ k_ws st = WRefused /\ c_ws st = false
+  /\ c_recv st = [0; 1]%N /\ s_recv st = [0]%N.
+Proof. vm_compute. repeat split. Qed.
